@@ -33,6 +33,11 @@ pub enum IdEdit {
     FlipSig(u8),
     CreatorNoResign,
     CreatorResign,
+    /// a slip-less transaction of the given type code with the given txs_replacements count
+    /// (0 = a placeholder that claims to stand for nothing) inserted at a position
+    InsertTyped(u16, u8, u8),
+    /// txs_replacements of an existing transaction changed
+    MutateTxReplacements(u16, u8),
     /// control: no edit at all (must be accepted)
     Identity,
 }
@@ -161,6 +166,32 @@ fn apply(orig: &Block, e: &IdEdit) -> Option<(Block, bool, bool)> {
             } else {
                 t.data.push(7);
             }
+        }
+        IdEdit::InsertTyped(s, ty, repl) => {
+            use saito_core::core::consensus::transaction::{Transaction, TransactionType};
+            let mut t = Transaction::default();
+            t.transaction_type = match ty % 5 {
+                0 | 1 => TransactionType::SPV,
+                2 => TransactionType::Normal,
+                3 => TransactionType::ATR,
+                _ => TransactionType::Vip,
+            };
+            t.timestamp = b.timestamp + 3;
+            t.txs_replacements = [0u32, 0, 1, 2, 7][*repl as usize % 5];
+            t.data = vec![*repl, *ty, 9];
+            t.sign(&key(3).1);
+            b.transactions.insert(pick(*s, n + 1), t);
+        }
+        IdEdit::MutateTxReplacements(s, r) => {
+            if n == 0 {
+                return None;
+            }
+            let t = &mut b.transactions[pick(*s, n)];
+            let new = [0u32, 2, 3, 1][*r as usize % 4];
+            if t.txs_replacements == new {
+                return None;
+            }
+            t.txs_replacements = new;
         }
         IdEdit::MutateTxTimestamp(s) => {
             if n == 0 {
@@ -339,6 +370,9 @@ pub fn arb_edit() -> impl Strategy<Value = IdEdit> {
         any::<u16>().prop_map(IdEdit::MutateTxAmount),
         any::<u16>().prop_map(IdEdit::MutateTxData),
         any::<u16>().prop_map(IdEdit::MutateTxTimestamp),
+        (any::<u16>(), any::<u8>(), any::<u8>()).prop_map(|(s, t, r)| IdEdit::InsertTyped(s, t, r)),
+        (any::<u16>(), any::<u8>(), any::<u8>()).prop_map(|(s, t, r)| IdEdit::InsertTyped(s, t, r)),
+        (any::<u16>(), any::<u8>()).prop_map(|(s, r)| IdEdit::MutateTxReplacements(s, r)),
         (0u8..SIGNED_FIELDS as u8).prop_map(IdEdit::HeaderSigned),
         (0u8..UNSIGNED_FIELDS as u8).prop_map(IdEdit::HeaderUnsigned),
         any::<u16>().prop_map(IdEdit::MerkleOfEdited),
